@@ -509,6 +509,31 @@ fn main() {
                     } else {
                         ctx.bump("not-operands-skipped-as-too-large", 1);
                     }
+                    // lists made of full minterms only (what a conversion from a table produces), in random order and
+                    // with repeated entries — a redundant list is a legitimate argument of from_cubes
+                    {
+                        let nm = rng.range(1, 10);
+                        let mask = (1u32 << nm) - 1;
+                        let mut mk = |rng: &mut Rng| -> Vec<CubeM> {
+                            let mut l: Vec<CubeM> = (0..rng.range(1, 40))
+                                .map(|_| {
+                                    let m = rng.next_u64() as u32 & mask;
+                                    CubeM::new(m, !m & mask)
+                                })
+                                .collect();
+                            for _ in 0..rng.below(4) {
+                                let d = *rng.pick(&l);
+                                l.push(d);
+                                if rng.chance(1, 3) {
+                                    l.push(d);
+                                }
+                            }
+                            rng.shuffle(&mut l);
+                            l
+                        };
+                        let (ma, mb) = (mk(&mut rng), mk(&mut rng));
+                        run(ctx, "expr|minterm-lists", nm, &[ma, mb], &[Tok::Leaf(0), Tok::Leaf(1), Tok::Or, Tok::Leaf(0), Tok::And]);
+                    }
                     // nested expressions, up to 4 operations, small leaves so that ! stays bounded
                     let ne = rng.range(0, 6);
                     let nl = rng.range(1, 4);
@@ -666,5 +691,6 @@ fn main() {
     required.push("expr|big-square".into());
     required.push("expr|big-disjoint".into());
     required.push("expr|big-or".into());
+    required.push("expr|minterm-lists".into());
     cli.finish(&ctx, &required, RULE);
 }
